@@ -93,7 +93,8 @@ CLAIMED = {
         note="Representation independence of commitment inputs is C07/C08; associativity of the Banderwagon law is a premise (GroupLaws).",
         tech="Coq proof (monoid of tables + permutation invariance, regrouping, fraction algebra, IPA round invariant by induction on k) + differential correspondence", ref="DESIGN.md 6.1"),
     "C02": dict(
-        text="Theorems: the whole result of CheckMultiProof is invariant under replacing every commitment, D, L_j, R_j by an "
+        text="Theorems: CheckIPAProof equals the textbook recursive-folding verifier for every proof object and statement "
+             "(same errors, transcript, decision); the whole result of CheckMultiProof is invariant under replacing every commitment, D, L_j, R_j by an "
              "equivalent representation (any congruence respected by encoding and Equal); "
              "CheckMultiProof / CheckIPAProof of the model return an error exactly on the listed shape defects "
              "(length mismatches, zero openings, L/R count <> numRounds) and a decision otherwise (total, no partial function); "
